@@ -79,6 +79,7 @@ class CWorld(X.World):
         super().__init__(backend, 0, api=api)
         self.user_names.add(self.table)
         self.caller_names: set[str] = set()
+        self.fx715 = False
 
     # catalog: every table and view with its kind
     def catalog(self) -> list[tuple[str, str]]:
@@ -111,6 +112,9 @@ class CWorld(X.World):
         for n, _ in self.catalog():
             if n in self.user_names or n in self.caller_names:
                 out.append((n, False))
+            elif n.startswith("__splink__realtime_compare_records_") and self.fx715:
+                # tracked result table of the realtime cached-SQL path: the model names it by a hash key
+                out.append(("__splink__realtime_compare_records", True))
             else:
                 out.append(X.strip_name(n))
         return sorted(out)
@@ -214,17 +218,21 @@ def run_history(ctx: Ctx, backend: str, hist: list[tuple], fixes: dict, tag: str
     import splink.internals.realtime as R
     R._sql_cache = R.SQLCache()
     w = CWorld(backend, fresh_path(backend, tag))
+    w.fx715 = fixes["fx715"]
     w.rt_settings = C07.rt_settings(1)
     init = coq_cinit(w, fixes)
     before = w.user_state()
     steps, done, problems = [], [], []
     if cleanup_at_end:
         hist = list(hist) + [("del",)]
+    hist = [x for op in hist for x in ([("rt", False), ("rt", True)] if op[0] == "rtc" else [op])]
     for op in hist:
         if op[0] == "rtf" and not fixes["fx77"] and "__splink__df_concat_with_tf" in w.cache and op[1] not in w.registered:
             op = ("inv",)
         if op[0] == "dropu" and op[1] not in dict(w.catalog()):
             continue                      # dropping a table that does not exist is outside the property
+        if op[0] == "complete" and backend == "sqlite":
+            continue                      # completeness_chart emits SQL SQLite cannot parse (loud, outside C18)
         term, raised = w.capply(op)
         done.append(op)
         if raised:
@@ -301,7 +309,12 @@ def history_stage(ctx: Ctx, fixes: dict):
     # every single operation and every pair (operation, cleanup) from a small alphabet
     alpha = [("predict",), ("detlink",), ("est_u", 1), ("em", 0), ("prior", 0), ("ctf", "first_name"), ("rtf", "first_name", 1),
              ("fm",), ("c2", False), ("cluster", 0), ("rt", False), ("reg", "caller_t1", False, 1), ("reg", "customers", False, 2),
-             ("dropu", "customers", False), ("dropu", "r", False)]
+             ("dropu", "customers", False), ("dropu", "r", False), ("acc_col",), ("acc_tab",), ("m_col",), ("m_pair",),
+             ("unlink",), ("profile",), ("complete",), ("ba_cum",), ("ba_nl", 0), ("multi",)]
+    if fixes["fx715"]:
+        alpha.append(("rtc",))
+    if fixes.get("fx717"):
+        alpha.append(("metrics", 0))
     for a in alpha:
         for tail in ([("del",)], [("inv",)]) if not ctx.quick else ([("del",)],):
             results.append(run_history(ctx, "duckdb", [a] + list(tail), fixes, "ex", cleanup_at_end=False))
@@ -377,6 +390,18 @@ def witness_stage(ctx: Ctx, fixes: dict):
         bad, errs = ctx.eval_cases("C18_w715", HEADER, [coq_term(r)], "run_ccase")
         ctx.obligation("witness 7.15 (repaired): catalog equals the model's", not bad and not errs, "; ".join(errs)[:500])
     ctx.expect_known("KF-C18-realtime-cached-leak", leak, "the cached path now tracks its table")
+    # 7.17 compute_graph_metrics registers __splink__bridges_<hash> untracked
+    if not fixes.get("fx717"):
+        r = run_history(ctx, "duckdb", [("metrics", 0), ("del",)], fixes, "w717", cleanup_at_end=False)
+        leak17 = any(p["why"].startswith("tables derived") for p in r["problems"])
+        ctx.cov["witness_graph_metrics_bridges_leak"] = leak17
+        if leak17:
+            ctx.violation("compute_graph_metrics registers __splink__bridges_<hash> as a non-Splink table; it survives "
+                          "delete_tables_created_by_splink_from_db",
+                          {"case": r["history"], "backend": "duckdb", "implementation": r["problems"],
+                           "specification": "cleanup removes every table Splink derived"},
+                          {"scenario": "graph_metrics_bridges_leak"})
+        ctx.expect_known("KF-C18-graph-metrics-bridges-leak", leak17, "the bridges table is tracked")
     # 7.11 debug mode
     for backend in ("duckdb", "sqlite"):
         r = run_history(ctx, backend, [("debug", True), ("predict",), ("del",)], fixes, "w711", cleanup_at_end=False)
@@ -430,7 +455,7 @@ def run(ctx: Ctx):
         "histories: seeded sequences (3..12 quick, ..25 thorough) over the C07 operations plus register_table (new name / existing "
         "user table / user view / Splink look-alike name, overwrite=False), drop through Splink of user tables (force=False), realtime "
         "compare_records (cached / uncached), delete_tables_created_by_splink_from_db and invalidate_cache at random points, each "
-        "history closed by a cleanup call; persistent DuckDB and SQLite database files pre-populated with 6 user tables (names r, "
+        "history closed by a cleanup call (second wave: plus evaluation, m-training, unlinkables, profile/completeness, blocking analysis, multi-threshold clustering and graph metrics); persistent DuckDB and SQLite database files pre-populated with 6 user tables (names r, "
         "blocked_with_cols, __splink__df_concat, __splink__df_predict, a hashed look-alike, customers) and 2 views; plus every "
         "(operation, cleanup) pair over a 15-letter alphabet. Non-trivial: >= 3 kinds of operation and a cleanup call.")
     ctx.trusted += [
